@@ -40,11 +40,11 @@ from simkit.world import digest
 ID = "C44"
 LEVEL = "exploration"
 ENGINE = "simkit/model-world"
-QUICK_RUNS = 24000
+QUICK_RUNS = 50000
 QUICK_BUDGET_S = 120
 THOROUGH_BUDGET_S = 900
 CHUNK = 200
-RULE = ("seeded histories of 3-14 operations over a generated option schema containing every supported type "
+RULE = ("seeded histories of 4-30 operations over a generated option schema containing every supported type "
         "(bool, str, int, optional str, optional int, sequence of str; 0-3 of them registered late): "
         "update/update_known/update_defer/setattr/merge/toggle with 1-5 simultaneously assigned options and a "
         "wrongly typed value in the k-th of n, set() specs (valid, malformed, unknown, deferred), process_deferred, "
@@ -418,8 +418,8 @@ NEL = chr(0x85)
 #   restore - a listener that raises while it is notified of the restored values
 #   fold    - string values longer than ~60 characters that contain spaces (ruamel folds them)
 #   nel     - string values containing U+0085
-EXPOSURE = {"quick": {"kth": 0.06, "restore": 0.02, "fold": 0.05, "nel": 0.02},
-            "thorough": {"kth": 0.25, "restore": 0.06, "fold": 0.2, "nel": 0.08}}
+EXPOSURE = {"quick": {"kth": 0.2, "restore": 0.05, "fold": 0.15, "nel": 0.05},
+            "thorough": {"kth": 0.3, "restore": 0.08, "fold": 0.25, "nel": 0.1}}
 
 
 class Gen:
@@ -601,7 +601,7 @@ def generate(rng, tier):
         if isinstance(d, tuple):
             d = list(d)
         opts.append({"name": f"{t}{i}", "type": t, "default": enc(d), "late": False})
-    nlate = r.choice([0, 0, 1, 1, 2, 3])
+    nlate = r.choice([0, 1, 1, 2, 2, 3])
     for o in r.sample(opts, min(nlate, len(opts) - 3)):
         o["late"] = True
     types = {o["name"]: o["type"] for o in opts}
@@ -632,7 +632,7 @@ def generate(rng, tier):
                 edits = gen_edits(g, known, types, nmax=1)
             else:
                 edits = gen_edits(g, known, types)
-            if via in ("update_known", "update_defer") and r.random() < 0.5:
+            if via in ("update_known", "update_defer") and r.random() < 0.7:
                 nm = r.choice(late_pending + unknown_names)
                 if nm in types:
                     # a wrongly typed deferred value fails later, in the middle of process_deferred
@@ -656,13 +656,13 @@ def generate(rng, tier):
             bools = [n for n in known if types[n] == "bool"]
             if bools:
                 ops.append({"op": "toggle", "name": r.choice(bools), "rules": gen_rules(g, nl)})
-        elif x < 0.58 and late_pending:
+        elif x < 0.60 and late_pending:
             nm = late_pending.pop(r.randrange(len(late_pending)))
             known.append(nm)
             ops.append({"op": "add", "name": nm})
             if r.random() < 0.85:
                 ops.append({"op": "process_deferred", "rules": gen_rules(g, nl)})
-        elif x < 0.61:
+        elif x < 0.62:
             ops.append({"op": "process_deferred", "rules": gen_rules(g, nl)})
         elif x < 0.64:
             ops.append({"op": "reset"})
@@ -1212,8 +1212,10 @@ class Harness:
         except Exception as e:
             exc = e
         have = list(first)
+        base = {n: copy.deepcopy(self.defaults[n]) for n in self.known}  # state before the rejected stage
         if exc is None and late:
             stage = "process_deferred"
+            base.update({n: getattr(fresh, n) for n in first})
             try:
                 for n in late:
                     self.add_real(fresh, n)
@@ -1235,13 +1237,13 @@ class Harness:
                                f"fresh options loaded from {path}: {n} [{self.types[n]}] holds {short(got[n])}",
                                quiet=torn)
         if exc is not None:
-            changed = [n for n in have if not same(got[n], self.defaults[n])]
+            changed = [n for n in have if not same(got[n], base[n])]
             if changed:
                 n = changed[0]
                 self.violation("rejected_update_not_rolled_back",
                                {"exc": type(exc).__name__, "listener_rejected": False},
                                f"load_fresh/{stage} of {path} was rejected with {exc!r} but left {n}={short(got[n])} "
-                               f"(default {short(self.defaults[n])}); changed options: {changed}", quiet=torn)
+                               f"(before: {short(base[n])}); changed options: {changed}", quiet=torn)
         if musts is None:
             return
         self.roundtrips += 1
@@ -1308,7 +1310,7 @@ def char_class(ch):
 def diff_key(exp, got):
     if isinstance(exp, (list, tuple)) and isinstance(got, (list, tuple)):
         if len(exp) != len(got):
-            return {"edit": "seq_length", "exp": min(len(exp), 9), "got": min(len(got), 9)}
+            return {"edit": "seq_length", "got": "shorter" if len(got) < len(exp) else "longer"}
         for a, b in zip(exp, got):
             if not same(a, b):
                 return diff_key(a, b)
@@ -1322,11 +1324,15 @@ def diff_key(exp, got):
             k += 1
         e, g = exp[k:k + 1], got[k:k + 1]
         long_line = len(exp) > 60
+        if k == 0 and exp and got and exp[-1] != got[-1] and NEL not in exp:
+            return {"edit": "unrelated_value", "kind": "s"}  # not a mangled copy: some other value altogether
         if g and got[k + 1:k + 9] == exp[k:k + 8] and len(got) > len(exp):
             return {"edit": "insert", "got": char_class(g), "long": long_line}
         if e and exp[k + 1:k + 9] == got[k:k + 8] and len(exp) > len(got):
             return {"edit": "delete", "exp": char_class(e), "long": long_line}
         return {"edit": "replace", "exp": char_class(e), "got": char_class(g), "long": long_line}
+    if norm(exp)[0] == norm(got)[0]:
+        return {"edit": "unrelated_value", "kind": norm(exp)[0]}
     return {"edit": "type", "exp": norm(exp)[0], "got": norm(got)[0]}
 
 
